@@ -47,6 +47,7 @@ type Engine struct {
 	oblOrder []string
 
 	heapSorts      map[string]string
+	allSorts       map[string]string
 	interiorPtr    map[string]string
 	interiorPtrRev map[string]*Ptr
 	closureRev     map[string]Val
@@ -68,6 +69,7 @@ type Engine struct {
 	fdecls         map[string]*frameDecl
 	usedAts        map[*AtSpec]bool
 	usedRangeSpecs map[*LoopSpec]bool
+	pendingBinds   []Val
 	globalAddrs    []string
 	errGlobals     []string
 	modsetCache    map[*ssa.Function]map[string]bool
@@ -361,7 +363,11 @@ func (e *Engine) Run() (err error) {
 	st.old = st.snapshot()
 	env := e.envFor(st, fr, st.old)
 	if u.C != nil {
+		forget := e.forgetSet()
 		for _, c := range u.C.Requires {
+			if forget[c.Label] {
+				continue
+			}
 			v := e.evalBool(st, env, c.E)
 			st.assume(v)
 		}
